@@ -22,11 +22,19 @@
   Scope (why the bundle at the end is named `_partial`): the observables of the *world* domain are
   covered in full (every `WOp`, every history, every fuel, every seed, and in
   `observables_independent_of_any_reordering` every re-ordering whatsoever between steps).
-  Serialised output (saveload: marker-mapping order) and multi-storage `Join` order are observables
-  of other domains whose Lean models are not part of `World`; for them C20 rests on the
-  three-run differential check described in DESIGN §7/C20.
+  Serialised output is an observable of the save/load domain, whose model is not part of `World`: its one
+  piece of seed-dependent state is the marker allocator's `HashMap<u64, Entity>`, and the second block of
+  theorems below (`marker_map_order_never_observable…`, `serialised_output_independent_of_any_reordering`)
+  is the same non-interference statement for it, over every history of that domain's operations (both
+  serialisers, deserialisation of arbitrary data, marking, allocator maintenance, deletions, `maintain`
+  with lazily queued markings). Multi-storage `Join` order is an observable of the join domain, whose model
+  (Join/, property C06/C07) has no seed-dependent state at all — the order is ascending index by
+  construction — so there is nothing to state beyond `same_history_same_transcript`'s analogue; that the
+  REAL join, allocator and serialisers have no further hidden input (addresses, thread-locals, statics) is
+  what the three-run differential check described in DESIGN §7/C20 establishes, not a theorem.
 -/
 import SpecsModel.Lemmas.HashOrder
+import SpecsModel.SaveLoad.LemmasOrder
 namespace SpecsModel.C20
 open SpecsModel
 
@@ -126,5 +134,77 @@ example :
     (World.runSeededFrom 1 100 {} ops).1.ledger = [30, 10, 20] ∧
     World.runSeeded 0 100 ops = World.runSeeded 1 100 ops := by
   decide +kernel
+
+/-! ### Save/load domain: the marker allocator's hash map -/
+
+open SaveLoad in
+/-- Step-level non-interference for the save/load domain: two histories' states that differ only in how the
+    marker allocator's hash map is laid out (`SLWorld.Eqv`: every look-up answers alike) give the same result
+    for every operation — serialised records included — and stay so related. -/
+theorem marker_map_order_never_observable (x₁ x₂ : SLWorld) (op : SOp) (h : SLWorld.Eqv x₁ x₂) :
+    (x₁.step op).2 = (x₂.step op).2 ∧ SLWorld.Eqv (x₁.step op).1 (x₂.step op).1 :=
+  ⟨(SLWorld.step_eqv h op).2, (SLWorld.step_eqv h op).1⟩
+
+open SaveLoad in
+/-- Sequence form, and `maintain` with lazily queued markings. -/
+theorem marker_map_order_never_observable_seq (x₁ x₂ : SLWorld) (ops : List SOp) (js : List Nat)
+    (h : SLWorld.Eqv x₁ x₂) :
+    (x₁.runFrom ops).2 = (x₂.runFrom ops).2 ∧ SLWorld.Eqv (x₁.runFrom ops).1 (x₂.runFrom ops).1 ∧
+    (x₁.maintainLazy js).2 = (x₂.maintainLazy js).2 ∧ SLWorld.Eqv (x₁.maintainLazy js).1 (x₂.maintainLazy js).1 :=
+  ⟨(SLWorld.runFrom_eqv ops h).2, (SLWorld.runFrom_eqv ops h).1,
+   (SLWorld.maintainLazy_eqv h js).2, (SLWorld.maintainLazy_eqv h js).1⟩
+
+open SaveLoad in
+/-- Whatever happens to the hash map's layout between steps (any step-indexed transformer that keeps every
+    look-up — rehash, growth, a different seed per step), the transcript, with every serialised output in it,
+    is the plain run's. -/
+theorem serialised_output_independent_of_any_reordering (sc : Nat → SLWorld → SLWorld)
+    (hsc : ∀ n x, SLWorld.Eqv x (sc n x)) (ops : List SOp) :
+    (SLWorld.runScrambled sc 0 {} ops).2 = (SLWorld.run ops).2 :=
+  (SLWorld.runScrambled_eqv sc hsc ops 0 (SLWorld.Eqv.refl _)).2
+
+namespace SLDemo
+open SaveLoad
+
+/-- A layout disturbance that is not the identity: exchange the first two entries of the map. -/
+def swapFront : List (Nat × Entity) → List (Nat × Entity)
+  | a :: b :: t => if a.1 = b.1 then a :: b :: t else b :: a :: t
+  | m => m
+
+theorem swapFront_eqv (m : List (Nat × Entity)) : MapEqv m (swapFront m) := by
+  intro k
+  match m with
+  | [] => rfl
+  | [_] => rfl
+  | a :: b :: t =>
+    simp only [swapFront]
+    by_cases hab : a.1 = b.1
+    · simp only [hab, if_true]
+    · simp only [hab, if_false, mapLookup]
+      by_cases hk : a.1 = k
+      · have : ¬ b.1 = k := fun hb => hab (hk.trans hb.symm)
+        simp only [hk, this, if_true, if_false]
+      · simp only [hk, if_false]
+
+def sc (_ : Nat) (x : SLWorld) : SLWorld :=
+  { x with w := { x.w with ma := { x.w.ma with mapping := swapFront x.w.ma.mapping } } }
+
+theorem sc_eqv (n : Nat) (x : SLWorld) : SLWorld.Eqv x (sc n x) :=
+  ⟨⟨rfl, rfl, rfl, swapFront_eqv _, rfl, rfl, rfl⟩, rfl⟩
+
+def ops : List SOp :=
+  [.create false, .create false, .create false, .setP 0 (some 7), .setR 1 (some (0, 2)), .mark 0, .mark 2,
+   .serializeRec, .delNow 2, .maintain, .allocMaintain, .deserialize [{ marker := 1, p := some 3, r := some (0, 5), e := none }],
+   .serialize]
+
+/-- Non-vacuity: the disturbance satisfies the hypothesis, really changes the layout along this history (the
+    final maps differ as lists), and the transcripts — two serialised outputs in them — coincide. -/
+example :
+    (SLWorld.runScrambled sc 0 {} ops).1.w.ma.mapping ≠ (SLWorld.run ops).1.w.ma.mapping ∧
+    (SLWorld.runScrambled sc 0 {} ops).2 = (SLWorld.run ops).2 ∧
+    ((SLWorld.run ops).2.filter (fun r => match r with | .recs _ => true | _ => false)).length = 2 := by
+  decide +kernel
+
+end SLDemo
 
 end SpecsModel.C20
